@@ -89,7 +89,7 @@ Hist == Keep /\ Clean /\ UNCHANGED <<staged, stashed, pruned>>
 PCommit(b, p, blob, g) == Hist /\ Commit(b, p, blob, g)
 PCommitTree(b, t, g)   == Hist /\ CommitTree(b, t, g)
 PMerge(b, o)           == Hist /\ Merge(b, o)
-PPush(S)               == Hist /\ Push(S, "git-push")
+PPush(S)               == Hist /\ Push(S, "git-push", {})
 POtherPush(b)          == Hist /\ OtherPush(b)
 PStage(p, o)           == Keep /\ Stage(p, o)
 PStash(p, o)           == Keep /\ Stash(p, o)
